@@ -149,12 +149,6 @@ def _desc_ok(desc):
     return _desc_text(desc)
 
 
-def _KNOWN(fid, verdict):
-    if os.environ.get("T_HARDWIRE"):            # development switch: exclusion active without known_findings.json
-        return bool(verdict)
-    return R.known(fid, verdict)
-
-
 # ---- known findings (genuine defects kept out of the search so that the rest of each cell is still exhausted)
 def _kf_extend_here(desc):
     """a description containing the words 'extend here': SchemaLoaderWiki._get_tag_name looks for that marker in
@@ -214,8 +208,8 @@ def line_roundtrip(name: str, v1: str, v2: str, desc: str) -> bool:
     pre: _name_ok(name)
     pre: _vals_ok(v1, v2)
     pre: _desc_ok(desc)
-    pre: not _KNOWN("C05-desc-extend-here", _kf_extend_here(desc))
-    pre: not _KNOWN("C05-desc-nowiki", _kf_nowiki(desc))
+    pre: not R.known("C05-desc-extend-here", _kf_extend_here(desc))
+    pre: not R.known("C05-desc-nowiki", _kf_nowiki(desc))
     post: _
     """
     kind = _kind()
@@ -451,13 +445,6 @@ def selfcheck_classes(s: str) -> bool:
 
 
 # ---------------------------------------------------------------- registry
-def _cells(**dims):
-    out = [{}]
-    for k, vals in dims.items():
-        out = [dict(a, **{k: v}) for a in out for v in vals]
-    return out
-
-
 _OUTSIDE = ("XML (ElementTree is a C extension: symbolic text is realised at the first SubElement), TSV files "
             "(pandas), whole-schema equality, cross-format agreement, independent XML reading, partnered "
             "merging/unmerging, rooted re-parenting and generated whole-schema edits are NOT decided here; "
@@ -486,6 +473,7 @@ _LINE_T = _ATTR_T + [
     "hed.schema.schema_io.wiki2schema.SchemaLoaderWiki._get_tag_level",
     "hed.schema.schema_io.wiki2schema.SchemaLoaderWiki._create_tag_entry",
     "hed.schema.schema_io.wiki2schema.SchemaLoaderWiki._create_entry",
+    "hed.schema.schema_io.wiki2schema.SchemaLoaderWiki._get_tag_name",
     "hed.schema.schema_io.wiki2schema.SchemaLoaderWiki._get_tag_attributes",
     "hed.schema.schema_io.wiki2schema.SchemaLoaderWiki._get_line_section",
     "hed.schema.hed_schema_entry.HedSchemaEntry.__eq__",
@@ -520,7 +508,7 @@ def _line_cells(m, d, n, kinds, n2=None):
     n2 = n if n2 is None else n2                 # value bound of the cells with two symbolic values
     cells = []
     for k in kinds:
-        cells.append(_c("", n, VP_KIND=k, VP_M=m, VP_D=d))
+        cells.append(_c("", n, VP_KIND=k, VP_M=m + 1, VP_D=d + 1))     # no attribute: one character deeper
         cells.append(_c("V", n, VP_KIND=k, VP_M=m, VP_D=d))
     for sh in ("T", "TV", "VT"):
         cells.append(_c(sh, n, VP_KIND="vc", VP_M=m, VP_D=d))
@@ -555,14 +543,17 @@ _LINE_WHAT = ("one entry (value class / unit / tag at level 0-3 / value-taking c
               "(_remove_nowiki_tag_from_line, _get_tag_level, _create_tag_entry/_create_entry, _get_tag_attributes, "
               "_get_line_section, parse_attribute_string) reports no error and returns an entry equal to the original "
               "under HedSchemaEntry.__eq__ / HedTagEntry.__eq__ and under a hash-free comparison; with the unmerged "
-              "writer setting the inLibrary attribute, and only it, is dropped")
-_STUB_NAME = ("SchemaLoaderWiki._get_tag_name is replaced during the SYMBOLIC run by (written name, writer's offset "
-              "of the end of the name part): its pattern `(...|$)+` makes CrossHair's regex model recurse without "
-              "bound; concrete replays of counterexamples run the real function (stub and real function agree on "
-              "760 concrete lines, see report)")
-_STUB_REPR = ("vp/symstr.py: string arguments are re-wrapped with a concrete length (same z3 code points) and class "
-              "preconditions are single z3 terms; selfcheck_classes proves the latter equal to the plain Python "
-              "predicate")
+              "writer setting the inLibrary attribute, and only it, is dropped.  Known findings C05-desc-extend-here "
+              "and C05-desc-nowiki (descriptions containing 'extend here' / '<nowiki>' / '</nowiki>') are excluded "
+              "from the search only while known_findings.json lists them")
+_STUB_NAME = ("wiki2schema.tag_name_re (pattern `(\\*+|'{3})(.*?)('{3})?\\s*([\\[\\{]|$)+`, which makes CrossHair's regex "
+              "model recurse without bound) is replaced during the SYMBOLIC run by an object whose search() answers "
+              "from the writer's own layout (group 2 = text between the asterisks/quotes and the end of the name, "
+              "group 4 at the first '{'/'[' or the end of line); the rest of _get_tag_name is the real code; concrete "
+              "replays of counterexamples use the real pattern (stub and pattern agreed on 760 concrete lines)")
+_STUB_REPR = ("vp/symstr.py (changes CrossHair's representation, not hed-python): string arguments are re-wrapped "
+              "with a concrete length (same z3 code points) and class preconditions are single z3 terms; "
+              "selfcheck_classes proves the latter equal to the plain Python predicates")
 _STUB_ENTRY = ("entries are made by the real HedSchema._create_tag_entry on an empty HedSchema (never added to it); "
                "the loader object is created with __new__ (no file is opened)")
 
@@ -583,13 +574,15 @@ HARNESSES = [
     R.H("line_roundtrip", _LINE_T,
         quick=R.tier(cells=_line_cells(2, 2, 2, ["vc", "unit", "tag0", "tag1", "tag3", "ph"])
                      + _word_cells(12, ["tag1"], [8]), timeout=600, path_timeout=60,
-                     bound="name <= 2 chars, description <= 2 chars, attribute values <= 2 chars; " + _CLASSES +
+                     bound="name <= 2 chars, description <= 2 chars, attribute values <= 2 chars (entries without "
+                           "attributes: name <= 3, description <= 3); " + _CLASSES +
                            "; plus 1-char name, no attributes and a description <= 12 chars over [a-z blank], or "
                            "exactly 8 chars over [a-z > /] with at most one '<'"),
         thorough=R.tier(cells=_line_cells(3, 3, 3, ["vc", "unit", "tag0", "tag1", "tag2", "tag3", "ph"], n2=2)
                         + _word_cells(16, ["tag1", "vc", "ph"], [6, 7, 8, 9]), timeout=3600, path_timeout=120,
                         bound="name <= 3 chars, description <= 3 chars, attribute values <= 3 chars (<= 2 each when two "
-                              "attributes carry values); plus "
+                              "attributes carry values; entries without attributes: name <= 4, description "
+                              "<= 4); plus "
                               "descriptions <= 16 chars over [a-z blank] and of 6-9 chars over [a-z > /] with at "
                               "most one '<'"),
         what=_LINE_WHAT, oracle="models/wiki_line_ref.py (parse_line: grammar of a schema line written from the "
